@@ -21,12 +21,13 @@ PROPS = {
     "C07": {
         "level": "exploration",
         "technique": "runtime monitoring: one-hour backstop, futex interposer shows all N workers parked, one producer submits through each path and does not wait; state-based stranded verdict (all workers parked again in 3 samples 100 ms apart, wait-exit counter stable, units unstarted)",
-        "level_text": "For every submission path (pool schedule / schedule(ForceQueuing) / scheduleBulk, TaskSet and ConcurrentTaskSet heavy+light single and bulk, non-waiting parallel_for static+adaptive, non-waiting for_each, pool-bound Future) x pool size x park-order shuffle, a pool with a one-hour backstop is brought to the all-parked state, its park order is shuffled (ring-path full wakes and/or single force-queued tasks), then k in 1..N tasks are submitted by one non-pool thread. Pass = every unit started. Violation = every worker parked again while units are unstarted. Half the cases also delay the producer and/or the workers at the hook sites inside the submit and park paths. Held-on-what-was-run.",
+        "level_text": "For every submission path (pool schedule / schedule(ForceQueuing) / scheduleBulk, TaskSet and ConcurrentTaskSet heavy+light single and bulk, non-waiting parallel_for static+adaptive, non-waiting for_each, pool-bound Future) x pool size x park-order shuffle, a pool with a one-hour backstop is brought to the all-parked state, its park order is shuffled (ring-path full wakes and/or single force-queued tasks), then k in 1..N tasks are submitted by one non-pool thread. Pass = every unit started. Violation = every worker parked again while units are unstarted. Half the cases also delay the producer and/or the workers at the hook sites inside the submit and park paths. A second family (held-singles) submits single force-queued tasks one at a time into parked pools of 9, 10 and 17 threads (small last wake group) with bodies that block until released, so that every submission needs one more sleeper to be claimed and woken, the round-robin group hint starting on different groups (0..3 prior singles); the number of submissions stays within what the wake protocol guarantees for any kernel choice of waiter. Held-on-what-was-run.",
         "level_note": "The kernel's choice among futex waiters is not controlled, only varied by shuffling the park order; wake orders actually seen are recorded per case (ranks). No latency threshold is used anywhere.",
         "design_ref": "DESIGN.md §4 C07",
         "rule": "case = (path, N, k, shuffle, perturbation, order index); non-trivial = the pool reached the all-parked state and the submission made at least one parked worker leave its futex wait and start a unit (or ended stranded); distinct by full spec",
         "required_classes": ["route:central", "route:ring", "route:placed", "k:single", "k:multi", "ring:aligned", "ring:partial", "central:single", "central:burst", "central:bulk", "placed:single", "placed:burst", "placed:bulk",
-                             "history:fresh", "history:bulk", "history:claimed", "multi-group", "perturbed",
+                             "history:fresh", "history:bulk", "history:claimed", "multi-group", "perturbed", "held-singles", "held-singles:small-last-group",
+                             "held-singles:hint-start-g0", "held-singles:hint-start-g1", "held-singles:hint-start-g2",
                              "path:pool-schedule", "path:pool-schedule-fq", "path:pool-bulk", "path:ts-schedule", "path:ts-bulk",
                              "path:cts-heavy-schedule", "path:cts-heavy-bulk", "path:cts-light-schedule", "path:cts-light-bulk",
                              "path:parfor-static", "path:parfor-adaptive", "path:foreach", "path:future", "path:future-async"],
